@@ -332,10 +332,25 @@ def race_scenario(comp, rng, sid):
             iw = g.var(2, 'SIX')
             w_ops += [f'dng {iw} {xw}', 'payrd 0', 'payrd 0', 'payrd 0', f'dtor {iw}']
         sched += [2] * 3                       # the writer takes X
-        sched += [0] * rng.randrange(1, 8)     # A starts: optimistic attempts see X
+        # A starts: its optimistic attempts see X; with 11 or more quanta (the harness builds with
+        # CPP_UTILITY_SPINLOCK_RETRY_NUM=10) the attempts are exhausted and A is inside the locking fallback
+        sched += [0] * rng.choice([rng.randrange(1, 8), 11 + rng.randrange(0, 4), 11 + rng.randrange(0, 4)])
         sched += [2] * (2 * hold + 2)          # the writer finishes (or downgrades)
     if writer and kind == 'prep':
-        sched += [0] * rng.choice([1, 1, 1, 2, 3])   # the fallback's load sees the free word; its CAS is next
+        r1 = rng.random()
+        if r1 < 0.4:
+            sched += [0] * rng.choice([1, 1, 1, 2, 3])   # the fallback's load sees the free word; its CAS is next
+        elif r1 < 0.7:
+            # B is granted S first: the fallback's next load sees shared holders only (no X, no SIX)
+            b_ops = [f'lock S {sb} 0', 'payrd 0', 'payrd 0', f'dtor {sb}'] + b_ops
+            sched += [1] * rng.choice([2, 2, 3])
+            sched += [0] * rng.choice([1, 2, 3])
+        else:
+            # the fallback's load sees the free word, then B takes X before the fallback's CAS
+            b_ops = [f'lock X {xb} 0', f'paywr 0 {g.nextval()}', f'paywr 0 {g.nextval()}', f'dtor {xb}'] + b_ops
+            sched += [0] * 1
+            sched += [1] * rng.choice([2, 2, 3])
+            sched += [0] * rng.choice([1, 2, 3, 4])
     else:
         sched += [0] * rng.randrange(1, 7)     # A up to somewhere inside its operation
     sched += [1] * rng.randrange(1, 9)         # B changes the word
@@ -391,6 +406,58 @@ def reader_writers_scenario(rng, sid):
     return '\n'.join(lines)
 
 
+def prep_fallback_scenario(rng, sid):
+    """OptimisticLock::PrepareRead inside its locking fallback: a writer holds X until the caller's optimistic attempts
+    are exhausted (the harness builds with CPP_UTILITY_SPINLOCK_RETRY_NUM=10, so 11 loads), commits (or downgrades),
+    and then - by an explicit schedule prefix - either the fallback's load sees the free word and another thread takes
+    S / SIX / X before its CAS, or another thread is granted S / SIX first so that the fallback's load sees other
+    holders only.  These are the exits of the fallback: own S grant, version of a word with shared holders, retry."""
+    g = LockGen('opt', rng, nlocks=1)
+    c = g.var(0, 'Comp')
+    a_ops = rng.choice([[f'prep {c} 0', f'bool {c}', f'cverify {c}', f'gver {c}', f'cverify {c}', f'dtor {c}'],
+                        [f'prep {c} 0', f'bool {c}', f'dtor {c}']])
+    sb, ib, xb = g.var(1, 'S'), g.var(1, 'SIX'), g.var(1, 'X')
+    xw = g.var(2, 'X')
+    hold = rng.choice([6, 8, 10])
+    w_ops = [f'lock X {xw} 0'] + [f'paywr 0 {g.nextval()}' for _ in range(hold)]
+    if rng.random() < 0.7:
+        w_ops += [f'dtor {xw}']
+    else:
+        iw = g.var(2, 'SIX')
+        w_ops += [f'dng {iw} {xw}', 'payrd 0', 'payrd 0', f'dtor {iw}']
+    # the writer comes back for a second exclusive section while B may still be inside its section
+    w_ops += [f'lock X {xw} 0', f'paywr 0 {g.nextval()}', f'paywr 0 {g.nextval()}', f'dtor {xw}']
+    first = rng.choice(['S', 'S', 'S', 'SIX', 'X'])
+    if first == 'S':
+        b_ops = [f'lock S {sb} 0'] + ['payrd 0'] * rng.choice([3, 8, 12]) + [f'dtor {sb}']
+    elif first == 'SIX':
+        b_ops = [f'lock SIX {ib} 0', 'payrd 0', 'payrd 0', f'dtor {ib}']
+    else:
+        b_ops = [f'lock X {xb} 0', f'paywr 0 {g.nextval()}', f'paywr 0 {g.nextval()}', f'dtor {xb}']
+    for _ in range(rng.randrange(0, 3)):
+        b_ops += [f'lock X {xb} 0', f'paywr 0 {g.nextval()}', f'dtor {xb}']
+    sched = [2] * 3
+    sched += [0] * (11 + rng.randrange(0, 4))
+    sched += [2] * (2 * hold + 2)
+    if rng.random() < 0.5:
+        sched += [0] * 1                         # the fallback's load; its CAS is next
+        sched += [1] * rng.choice([2, 2, 3])     # B is granted in between
+        sched += [0] * rng.choice([1, 2, 3, 4])
+    else:
+        sched += [1] * rng.choice([2, 2, 3])     # B is granted first
+        sched += [0] * rng.choice([1, 2, 3, 6])  # the fallback's load sees B's grant
+    pt = 3
+    px = g.var(pt, 'X')
+    progs = [a_ops, b_ops, w_ops, [f'lock X {px} 0', f'paywr 0 {g.nextval()}', f'dtor {px}']]
+    kinds = ','.join(g.block * 4)
+    lines = [f'SCEN {sid} comp=opt nlocks=1 kinds={kinds} policy={rng.choice([0, 1, 2])} seed={rng.randrange(1, 1 << 30)} '
+             f'max_steps=3000 late={pt}']
+    lines += ['T ' + ';'.join(p) for p in progs]
+    lines.append('S ' + ' '.join(map(str, sched)))
+    lines.append('GO')
+    return '\n'.join(lines)
+
+
 def make_scenarios(comp, seed, count, prefix):
     rng = random.Random(f'{comp}-{seed}')
     out = []
@@ -407,6 +474,9 @@ def make_scenarios(comp, seed, count, prefix):
             continue
         if comp == 'opt' and r0 < 0.54:
             out.append(reader_writers_scenario(rng, f'{prefix}{i}'))
+            continue
+        if comp == 'opt' and r0 < 0.59:
+            out.append(prep_fallback_scenario(rng, f'{prefix}{i}'))
             continue
         nlocks = 2 if rng.random() < 0.35 else 1
         g = LockGen(comp, rng, nlocks=nlocks)
